@@ -13,16 +13,32 @@ dtml-try/finally (the finally body runs while the exception is in flight), or th
 caller's namespace (dtml-var sub / dtml-if sub / dtml-unless sub / dtml-call sub, with or without own defaults); the handler /
 finally / else bodies and the rest of the template hold further conditionals and references on the SAME names, which have to
 evaluate them afresh.  A second family uses callables whose result CHANGES from one evaluation to the next (real code only).
+Scopes inside the chosen body: the wrappers include dtml-with on an object / a mapping, plain and `only` (a fresh namespace),
+and a let that REBINDS the condition name; scope-opening blocks also stand BESIDE the references (they have come and gone when
+the reference is rendered).  A systematic family puts every kind of scope-opening block (with object / mapping × only ×
+attribute of the same name, plain or callable × left by dtml-raise / an undefined variable / an undefined with name and
+caught × nested in / around let, in, with only; let, in, if / elif / unless / call on the same name, try, try-finally,
+sub-templates incl. one that returns from inside `with only`) into the chosen body of every form of conditional (if, elif,
+else, else after a repeated elif, unless, if inside if) before a further reference to the condition name, and refers to a
+keyword argument of the call after the conditional (the namespace beneath the cache has to be intact, too).
+Spellings: half of all programs are written in another concrete syntax than plain dtml — <dtml-x>, <!--#x-->, or %(x)[ … %(x)]
+on the String class (sub-templates pick their own: String and HTML templates in one rendering) — with the else tag repeating
+the argument text of its if tag (the old style of the DT_If documentation), end tags with arguments, name=NAME, "expr", and
+dtml-unless written as the stand-alone `else NAME` block of the same documentation; a systematic family covers chains of
+1..5 conditions × winning position × else tag bare / repeating × 3 syntaxes × first condition name / expression.
 Oracle (independent of the model): output and ordered call log predicted from the chain by the documented rule, Python's
-try semantics for the recovery constructs.
+try semantics for the recovery constructs; dtml-with = the attributes / keys layered over the namespace (`only`: over
+nothing) for exactly the duration of the body.  The expected values do not depend on the spelling.
 Correspondence: the same programs on the Lean interpreter model (results + call traces).
 """
 import itertools
 import json
+import random
 
 import common
 import interp
 import proggen
+import tmplgen
 
 # kind -> (is_name_condition, builder)
 NAME_KINDS = ['val_t', 'val_f', 'str_t', 'str_f', 'none', 'fn_t', 'fn_f', 'fn_none', 'fn_str', 'fn_empty', 'undef']
@@ -35,7 +51,10 @@ class Builder:
         self.ns = {}          # name -> JSON value
         self.fn = 0
         # name -> ('val', v) | ('fn', id, result) | ('fnseq', id, [results]) | ('tmpl', index) | ('undef',)
-        self.binding = {'one': ('val', 1), 'single': ('val', 'SEQ')}
+        self.binding = {'one': ('val', 1), 'single': ('val', 'SEQ'), 'wobj': ('val', Attrs({'wa': 5})),
+                        'wmap': ('val', Attrs({'wa': 6}))}
+        self.withs = 0
+        self.style = None     # None = proggen's plain dtml printer; else {'seed': int, ...} (see Speller / spell_case)
         self.subs = []        # sub-templates rendered on the caller's namespace: (blocks, globals [[name, JSON value]])
         self.seqs = {}        # function id -> successive results (callables whose value changes; not in the model)
 
@@ -70,6 +89,27 @@ class Builder:
         self.binding[name] = ('fnseq', self.fn, [jpy(x) for x in results])
         self.seqs[self.fn] = [jpy(x) for x in results]
 
+    def new_with(self, mapping, attrs):
+        """a further object (attributes) / mapping (keys) for dtml-with; attrs: [[name, JSON value]]; a value {'f': 0, 'r': x}
+        is a callable with a logged side effect (it gets a fresh id)"""
+        self.withs += 1
+        name = ('wm%d' if mapping else 'wo%d') % self.withs
+        js, py = [], {}
+        for k, v in attrs:
+            if isinstance(v, dict) and 'f' in v:
+                j, bd = self.new_fn(v['r'], jpy(v['r']))
+                js.append([k, j])
+                py[k] = bd
+            elif isinstance(v, dict) and 'd' in v:
+                js.append([k, v])
+                py[k] = Attrs({kk: jpy(vv) for kk, vv in v['d']})       # a mapping as a value: for a nested dtml-with
+            else:
+                js.append([k, v])
+                py[k] = jpy(v)
+        self.ns[name] = {'d': js} if mapping else {'o': 100 + self.withs, 'a': js}
+        self.binding[name] = ('val', Attrs(py))
+        return name
+
     def new_sub(self, blocks, globals_):
         self.subs.append((blocks, globals_))
         name = 'sub%d' % len(self.subs)
@@ -80,6 +120,14 @@ class Builder:
 
 def jpy(v):
     return v['s'] if isinstance(v, dict) else v
+
+
+class Attrs(dict):
+    """what dtml-with layers over the namespace: the attributes of an object / the keys of a mapping (values: plain values
+    or ('fn', id, result) callables, invoked at every reference)"""
+
+
+ONLY = Attrs()      # marks the bottom of the fresh namespace of a `dtml-with ... only` block: nothing below it is visible
 
 
 def truthy(v):
@@ -137,10 +185,17 @@ class Oracle:
         return result
 
     def lookup(self, n, caches, call):
+        bd = None
         for c in reversed(caches):
+            if c is ONLY:
+                raise KeyError(n)
             if n in c:
-                return c[n]
-        bd = self.b.binding.get(n, ('undef',))
+                if not (isinstance(c, Attrs) and isinstance(c[n], tuple)):
+                    return c[n]
+                bd = c[n]       # a callable attribute / mapping value: found, and invoked, at every reference
+                break
+        if bd is None:
+            bd = self.b.binding.get(n, ('undef',))
         if bd[0] == 'undef':
             raise KeyError(n)
         if bd[0] == 'val':
@@ -165,6 +220,13 @@ class Oracle:
         finally:
             caches.pop()
             del self.out[mark:]
+
+    def need(self, n, caches):
+        """the value of a name that a tag cannot do without (dtml-with / dtml-let / dtml-in / dtml-return NAME)"""
+        try:
+            return self.lookup(n, caches, True)
+        except KeyError:
+            raise Fault('KeyError', n)
 
     def cond_value(self, src, caches):
         if src[0] == 'n':
@@ -230,18 +292,37 @@ class Oracle:
                 finally:
                     caches.pop()
             elif k == 'let':
-                caches.append({n: self.lookup(s[1], caches, True) for n, s in b[1]})
+                # the bindings are evaluated left to right, each one seeing the earlier ones
+                frame = {}
+                caches.append(frame)
                 try:
+                    for n, s in b[1]:
+                        frame[n] = self.need(s[1], caches) if s[0] == 'n' else self.expr(s[1], caches)
                     self.render(b[2], caches)
                 finally:
                     caches.pop()
             elif k == 'in':
                 # wrapper over the one-element list `single`: one iteration; the sequence is cached under its name
+                self.need(b[1][1], caches)
                 caches.append({b[1][1]: 'SEQ'})
                 try:
                     self.render(b[3], caches)
                 finally:
                     caches.pop()
+            elif k == 'with':
+                # the attributes / keys of the value are layered over the namespace for the body; with `only` the body
+                # sees NOTHING else (a fresh namespace), and the calling namespace is exactly what it was afterwards,
+                # however the body is left
+                _, src, mapping, only, body = b
+                v = self.need(src[1], caches)
+                if only:
+                    self.render(body, [ONLY, v])
+                else:
+                    caches.append(v)
+                    try:
+                        self.render(body, caches)
+                    finally:
+                        caches.pop()
             elif k == 'try':
                 # Python's try / except / else; what the body had produced before it failed is dropped
                 _, body, handlers, els = b
@@ -280,10 +361,7 @@ class Oracle:
                 raise Fault(b[1], msg)
             elif k == 'ret':
                 if b[1][0] == 'n':
-                    try:
-                        v = self.lookup(b[1][1], caches, True)
-                    except KeyError:
-                        raise Fault('KeyError', b[1][1])
+                    v = self.need(b[1][1], caches)
                 else:
                     v = self.expr(b[1][1], caches)
                 raise Ret(v)
@@ -291,17 +369,46 @@ class Oracle:
                 raise ValueError(k)
 
 
-def wrap(r, blocks, depth):
-    """nest `blocks` inside `depth` wrappers that bind other names only"""
-    for _ in range(depth):
-        w = r.choice(['if', 'let', 'in'])
-        if w == 'if':
-            blocks = [['cond', [[['n', 'one'], blocks]], None]]
-        elif w == 'let':
-            blocks = [['let', [['zz', ['n', 'one']]], blocks]]
-        else:
-            blocks = [['in', ['n', 'single'], {}, blocks, None]]
+WRAP_KINDS = ['if', 'let', 'in', 'if', 'let', 'in', 'with', 'withmap', 'withonly', 'withmaponly']
+
+
+def wrap1(w, blocks, shadow=None):
+    if w == 'if':
+        return [['cond', [[['n', 'one'], blocks]], None]]
+    if w == 'let':
+        return [['let', [['zz', ['n', 'one']]], blocks]]
+    if w == 'letshadow':
+        # the wrapper REBINDS the name: inside it the name is the new value, after it the old one again
+        return [['let', [[shadow, ['n', 'one']]], blocks]]
+    if w == 'in':
+        return [['in', ['n', 'single'], {}, blocks, None]]
+    if w in ('with', 'withonly'):
+        return [['with', ['n', 'wobj'], False, w == 'withonly', blocks]]
+    if w in ('withmap', 'withmaponly'):
+        return [['with', ['n', 'wmap'], True, w == 'withmaponly', blocks]]
+    raise ValueError(w)
+
+
+def wrap(r, blocks, depth, shadow=None):
+    """nest `blocks` inside `depth` wrappers: conditionals / let / in / with (object, mapping) that bind other names only,
+    `with ... only` (a fresh namespace: nothing of the caller's is visible inside, everything is again afterwards) and,
+    when `shadow` names a variable, a let that rebinds it"""
+    for i in range(depth):
+        w = r.choice(WRAP_KINDS)
+        if w.endswith('only') and i > 0 and r.random() < 0.85:
+            # mostly innermost: the let / in / if wrappers inside it would find nothing of what they refer to (that case, a
+            # block left by KeyError inside the fresh namespace, is kept with a small share)
+            w = w[:-4]
+        if shadow is not None and r.random() < 0.15:
+            w = 'letshadow'
+        blocks = wrap1(w, blocks, shadow)
     return blocks
+
+
+def scope_beside(r):
+    """a scope-opening block that stands BESIDE the references of a body (it has come and gone when they are rendered)"""
+    w = r.choice(['withonly', 'withmaponly', 'withonly', 'with', 'withmap', 'let', 'in', 'if'])
+    return wrap1(w, [['lit', 'w'], ['var', ['n', 'wa'], False, 'U', None]])
 
 
 def make_src(b, i, kind, name=None):
@@ -340,19 +447,169 @@ def body_for(r, i, names, refs=True):
         for _ in range(r.randint(1, 2)):
             n = r.choice(names)
             ref = [['lit', '('], ['var', ['n', n], False, 'U', None], ['lit', ')']]
-            blocks += wrap(r, ref, r.choice([0, 0, 1, 2, 3]))
+            if r.random() < 0.25:
+                blocks += scope_beside(r)
+            blocks += wrap(r, ref, r.choice([0, 0, 1, 2, 3]), shadow=n)
     return blocks
+
+
+class Speller:
+    """one concrete spelling of an abstract program.  What varies is what the documentation offers and must not matter:
+    the tag syntax (<dtml-x>, <!--#x-->, %(x)[ … %(x)] of the String class), an else tag that REPEATS the argument text of
+    its if tag (`<dtml-if x>…<dtml-elif y>…<dtml-else x>…`, the old style of the DT_If documentation), end tags with
+    arguments, dtml-unless NAME written as the stand-alone `else NAME` block of the same documentation, NAME / name=NAME,
+    "expr" / expr="expr".  The abstract program (and with it the expected output and call log) is the same."""
+
+    def __init__(self, rs, syntax, p_rep=0.5, p_else_start=0.35):
+        self.r = rs
+        self.st = tmplgen.Style(rs, syntax)
+        self.syntax = syntax
+        self.p_rep = p_rep
+        self.p_else_start = p_else_start
+        self.used = set()
+
+    def target(self, s):
+        if s[0] == 'n':
+            return s[1] if self.r.random() < 0.85 else 'name=%s' % s[1]
+        e = proggen.expr_src(s[1])
+        return 'expr="%s"' % e if self.r.random() < 0.5 else '"%s"' % e
+
+    def open(self, name, args):
+        return tmplgen.open_tag(name, args, self.st)
+
+    def close(self, name, args):
+        return tmplgen.close_tag(name, args, self.st)
+
+    def simple(self, name, args):
+        return tmplgen.simple_tag(name, args, self.st)
+
+    def blocks(self, bs, encl=()):
+        """encl: (argument text, abstract source) of the tags of the innermost enclosing block that has an else continuation"""
+        return ''.join(self.block(b, encl) for b in bs)
+
+    def block(self, b, encl):
+        k = b[0]
+        r = self.r
+        if k == 'lit':
+            return b[1]
+        if k == 'var':
+            _, s, hq, missing, null = b
+            if self.syntax == 'epfs' and s[0] == 'n' and not hq and r.random() < 0.5:
+                # %(name options)s
+                a = [s[1]]
+            else:
+                a = ['var', self.target(s)]
+            if hq:
+                a.append('html_quote')
+            if missing is not None:
+                a.append('missing="%s"' % missing)
+            if null is not None:
+                a.append('null="%s"' % null)
+            if self.syntax == 'epfs':
+                if a[0] == 'var':
+                    return '%%(var%s%s)s' % (tmplgen.epfs_sp(a[1], self.st), ' '.join(a[1:]))
+                return '%%(%s)s' % ' '.join(a)
+            return self.simple('var', ' '.join(a[1:]))
+        if k == 'call':
+            return self.simple('call', self.target(b[1]))
+        if k == 'ret':
+            return self.simple('return', self.target(b[1]))
+        if k == 'cond':
+            _, conds, els = b
+            args = [self.target(c) for c, _ in conds]
+            inside = [(a, c) for a, (c, _) in zip(args, conds)]
+            out = self.open('if', args[0]) + self.blocks(conds[0][1], inside)
+            for a, (_, body) in zip(args[1:], conds[1:]):
+                out += self.open('elif', a) + self.blocks(body, inside)
+            if els is not None:
+                rep = ''
+                if not args[0].startswith('expr=') and r.random() < self.p_rep:
+                    rep = args[0]
+                    self.used.add('else-repeats-if' + ('+elif' if len(conds) > 1 else ''))
+                out += self.open('else', rep) + self.blocks(els, inside)
+            return out + self.close('if', args[0])
+        if k == 'unless':
+            a = self.target(b[1])
+            if not a.startswith('expr=') and r.random() < self.p_else_start and \
+                    not any(e.startswith(a) or src == b[1] for e, src in encl):
+                # "to include text when an object is false": <!--#else name--> text <!--#/else name-->
+                # (not where it could be read as the else tag of an enclosing block on the same name / expression)
+                self.used.add('unless-as-else-start-tag')
+                return self.open('else', a) + self.blocks(b[2]) + self.close('else', a)
+            return self.open('unless', a) + self.blocks(b[2]) + self.close('unless', a)
+        if k == 'in':
+            _, s, o, body, els = b
+            a = ' '.join([self.target(s)] + (['mapping'] if o.get('mapping') else []) +
+                         (['no_push_item'] if o.get('noPush') else []) +
+                         (['prefix=%s' % o['prefix']] if o.get('prefix') else []))
+            out = self.open('in', a) + self.blocks(body, [(a, s)])
+            if els is not None:
+                out += self.open('else', '') + self.blocks(els, [(a, s)])
+            return out + self.close('in', a)
+        if k == 'with':
+            _, s, mapping, only, body = b
+            a = ' '.join([self.target(s)] + (['mapping'] if mapping else []) + (['only'] if only else []))
+            return self.open('with', a) + self.blocks(body) + self.close('with', a)
+        if k == 'let':
+            _, binds, body = b
+            a = ' '.join('%s=%s' % (n, s[1] if s[0] == 'n' else '"%s"' % proggen.expr_src(s[1])) for n, s in binds)
+            return self.open('let', a) + self.blocks(body) + self.close('let', '')
+        if k == 'try':
+            _, body, hs, els = b
+            out = self.open('try', '') + self.blocks(body)
+            for nm, hb in hs:
+                out += self.open('except', nm) + self.blocks(hb)
+            if els is not None:
+                out += self.open('else', '') + self.blocks(els)
+            return out + self.close('try', '')
+        if k == 'tryfin':
+            return self.open('try', '') + self.blocks(b[1]) + self.open('finally', '') + self.blocks(b[2]) + \
+                self.close('try', '')
+        if k == 'raise':
+            _, cls, e, body = b
+            if e is not None:
+                raise ValueError('raise by expression is not generated here')
+            return self.open('raise', cls) + self.blocks(body) + self.close('raise', '')
+        raise ValueError(k)
+
+
+SYNTAXES = ['dtml', 'ssi', 'epfs']
+
+
+def spell_case(b, all_blocks):
+    """[(class kind, source)] for the main template and the sub-templates.  Without a style: proggen's plain dtml printer.
+    With one, every template gets its own syntax — String and HTML templates call each other in one rendering."""
+    if b.style is None:
+        return [('html', proggen.print_blocks(bs)) for bs in all_blocks], set()
+    rs = random.Random(b.style['seed'])
+    out = []
+    used = set()
+    for i, bs in enumerate(all_blocks):
+        syntax = (b.style.get('syntax') if i == 0 else None) or rs.choice(SYNTAXES)
+        sp = Speller(rs, syntax, b.style.get('p_rep', 0.5), b.style.get('p_else_start', 0.35))
+        out.append(('epfs' if syntax == 'epfs' else 'html', sp.blocks(bs)))
+        used |= sp.used | {'syntax=' + syntax}
+    if len({kd for kd, _ in out}) > 1:
+        used.add('String+HTML-in-one-rendering')
+    return out, used
 
 
 def build_case(b, main_blocks):
     ns = dict(b.ns)
     ns['one'] = 1
     ns['single'] = {'l': [{'o': 1, 'a': [['w', 1]]}]}
-    subs = [{'blocks': sb, 'globals': sg, 'vars': [], 'source': proggen.print_blocks(sb)} for sb, sg in b.subs]
+    ns['wobj'] = {'o': 2, 'a': [['wa', 5]]}
+    ns['wmap'] = {'d': [['wa', 6]]}
+    spelled, used = spell_case(b, [main_blocks] + [sb for sb, _ in b.subs])
+    tmpls = [{'blocks': main_blocks, 'globals': [], 'vars': []}] + \
+            [{'blocks': sb, 'globals': sg, 'vars': []} for sb, sg in b.subs]
+    for t, (kd, src) in zip(tmpls, spelled):
+        t['source'] = src
+        t['klass'] = kd
     return {
-        'templates': [{'blocks': main_blocks, 'globals': [], 'vars': [], 'source': proggen.print_blocks(main_blocks)}] + subs,
+        'templates': tmpls,
         'main': 0, 'clients': [], 'mapping': [], 'kw': [[k, v] for k, v in ns.items()],
-        'classes': proggen.class_table(), 'denied': [], 'guard': False, 'utf8': True,
+        'classes': proggen.class_table(), 'denied': [], 'guard': False, 'utf8': True, 'spelling': sorted(used),
     }
 
 
@@ -414,6 +671,187 @@ def gen_random(r):
     return b, blocks, tuple(key)
 
 
+def ref_to(n):
+    return [['lit', '('], ['var', ['n', n], False, 'U', None], ['lit', ')']]
+
+
+RAISE = ['raise', 'ValueError', None, [['lit', 'boom']]]
+
+
+def scope_table(b, n, inner):
+    """every kind of block that opens (and has to close) a scope of its own, placed in the chosen body of a conditional on
+    the name `n`; `inner` = what it encloses (a marker, a reference to n, a reference to the with attribute).
+    label -> function giving the blocks (it registers the objects / sub-templates it needs with the builder `b`).
+    'caught' variants are LEFT BY AN EXCEPTION that a dtml-try around them handles."""
+    def caught(blocks):
+        return [['try', blocks, [['', [['lit', 'H']] + ref_to(n)]], None]]
+
+    def w(src, mapping, only, body):
+        return [['with', ['n', src], mapping, only, body]]
+
+    def let(name, src, body):
+        return [['let', [[name, ['n', src]]], body]]
+    undef_var = ['var', ['n', 'nowhere'], False, None, None]
+    t = {}
+    for only in (False, True):
+        o = '-only' if only else ''
+        t['with-object' + o] = lambda only=only: w('wobj', False, only, inner)
+        t['with-mapping' + o] = lambda only=only: w('wmap', True, only, inner)
+        # the object / mapping has an attribute / key of the SAME name (plain value; callable with a logged side effect)
+        t['with-object-same-name' + o] = lambda only=only: w(
+            b.new_with(False, [['wa', 1], [n, {'s': 'SH'}]]), False, only, inner)
+        t['with-mapping-same-name' + o] = lambda only=only: w(
+            b.new_with(True, [['wa', 2], [n, {'s': 'SM'}]]), True, only, inner)
+        t['with-object-same-name-callable' + o] = lambda only=only: w(
+            b.new_with(False, [[n, {'f': 0, 'r': {'s': 'SF'}}]]), False, only, inner)
+        t['with-mapping-same-name-callable' + o] = lambda only=only: w(
+            b.new_with(True, [[n, {'f': 0, 'r': 3}]]), True, only, inner)
+        t['with' + o + '-left-by-raise-caught'] = lambda only=only: caught(w('wobj', False, only, inner + [RAISE]))
+        t['with-mapping' + o + '-left-by-undefined-var-caught'] = lambda only=only: caught(
+            w('wmap', True, only, inner + [undef_var]))
+        t['with' + o + '-of-undefined-name-caught'] = lambda only=only: caught(w('nowhere', False, only, inner))
+        t['with' + o + '-containing-conditional-on-the-name'] = lambda only=only: w(
+            'wobj', False, only, [['cond', [[['n', n], inner]], inner]])
+        t['with' + o + '-containing-call-of-the-name'] = lambda only=only: w(
+            'wobj', False, only, [['call', ['n', n]]] + inner)
+        # the inner with finds its mapping among the keys of the outer one (the only thing visible there)
+        t['with' + o + '-inside-with-only'] = lambda only=only: w(
+            b.new_with(True, [['wi', {'d': [['wa', 8]]}]]), True, True, inner + w('wi', True, only, inner) + inner)
+        t['with' + o + '-inside-let'] = lambda only=only: let('zz', 'one', w('wobj', False, only, inner))
+        t['with' + o + '-inside-in'] = lambda only=only: [['in', ['n', 'single'], {}, w('wmap', True, only, inner), None]]
+        t['let-inside-with' + o] = lambda only=only: w('wobj', False, only, caught(let('zz', 'wa', inner)))
+        t['if-elif-inside-with' + o] = lambda only=only: w(
+            'wobj', False, only, [['cond', [[['n', 'nowhere'], inner], [['n', 'wa'], inner]], None]])
+        t['two-with' + o + '-in-a-row'] = lambda only=only: w('wobj', False, only, inner) + w('wmap', True, only, inner)
+    t['let-other-name'] = lambda: let('zz', 'one', inner)
+    t['let-same-name'] = lambda: let(n, 'one', inner)
+    t['let-bound-to-the-name'] = lambda: let('zz', n, inner + ref_to('zz'))
+    t['let-left-by-raise-caught'] = lambda: caught(let('zz', 'one', inner + [RAISE]))
+    t['let-of-undefined-name-caught'] = lambda: caught(let('zz', 'nowhere', inner))
+    t['in'] = lambda: [['in', ['n', 'single'], {}, inner, None]]
+    t['in-left-by-raise-caught'] = lambda: caught([['in', ['n', 'single'], {}, inner + [RAISE], None]])
+    t['if-other-name'] = lambda: [['cond', [[['n', 'one'], inner]], None]]
+    t['if-same-name'] = lambda: [['cond', [[['n', n], inner]], inner]]
+    t['if-elif-same-name'] = lambda: [['cond', [[['n', 'nowhere'], inner], [['n', n], inner]], inner]]
+    t['unless-same-name'] = lambda: [['unless', ['n', n], inner]]
+    t['call-same-name'] = lambda: [['call', ['n', n]]]
+    t['if-left-by-raise-caught'] = lambda: caught([['cond', [[['n', n], inner + [RAISE]]], inner + [RAISE]]])
+    t['if-left-by-undefined-var-caught'] = lambda: caught([['cond', [[['n', 'one'], inner + [undef_var]]], None]])
+    t['unless-left-by-raise-caught'] = lambda: caught([['unless', ['n', 'nowhere'], inner + [RAISE]]])
+    t['try-passing'] = lambda: [['try', inner, [['', [['lit', 'H']]]], [['lit', 'E']] + ref_to(n)]]
+    t['try-finally'] = lambda: [['tryfin', inner, [['lit', 'F']] + ref_to(n)]]
+    t['try-finally-left-by-raise-caught'] = lambda: caught([['tryfin', inner + [RAISE], [['lit', 'F']] + ref_to(n)]])
+    t['sub-template'] = lambda: [['var', ['n', b.new_sub(
+        [['lit', 'S']] + inner + [['cond', [[['n', n], inner]], inner]], [])], False, None, None]]
+    t['sub-template-returning-from-with-only'] = lambda: [['var', ['n', b.new_sub(
+        [['lit', 'S'], ['with', ['n', 'wobj'], False, True, inner + [['ret', ['e', ['lit', {'s': 'R'}]]]]]], [])],
+        False, None, None]]
+    t['sub-template-with-defaults-left-by-raise-caught'] = lambda: caught([['var', ['n', b.new_sub(
+        [['lit', 'S'], ['with', ['n', 'wmap'], True, False, inner + [RAISE]]], [[n + 'x', {'s': 'D'}]])],
+        False, None, None]])
+    return t
+
+
+SCOPE_FORMS = {
+    # form -> the kinds of value the name can have for the body to be the chosen one
+    'if': ['fn_t', 'fn_str', 'val_t'],
+    'elif': ['fn_t', 'fn_str'],
+    'else': ['fn_f', 'fn_none', 'fn_empty', 'undef'],
+    'elif-then-else': ['fn_f', 'fn_empty'],
+    'unless': ['fn_f', 'fn_none', 'val_f', 'undef'],
+    'if-inside-if': ['fn_t', 'fn_str'],
+}
+SCOPE_LABELS = sorted(scope_table(None, 'n', []))
+
+
+def gen_scope(r, form, kind, label, layout, label2=None):
+    """a conditional on the name `c` whose chosen body holds a scope-opening block and, AFTER it, a reference to c: the
+    conditional's cache has to be in place still (c is not evaluated again), and so has everything beneath it (`late`, a
+    name of the call's keyword arguments, is referred to after the conditional)"""
+    b = Builder()
+    b.bind('c', kind)
+    b.bind('late', 'str_t')
+    inner = [['lit', 'i']] + ref_to('c') + [['var', ['n', 'wa'], False, 'U', None]]
+    scope = scope_table(b, 'c', inner)[label]()
+    if label2 is not None:
+        scope = scope + [['lit', '+']] + scope_table(b, 'c', inner)[label2]()
+    body = {'after': scope + ref_to('c'), 'between': ref_to('c') + scope + ref_to('c'),
+            'nested-after': wrap(r, scope, 1) + ref_to('c')}[layout]
+    body = [['lit', 'B']] + body
+    other = [['lit', 'X']] + ref_to('c')
+    if form == 'if':
+        main = ['cond', [[['n', 'c'], body]], other]
+    elif form == 'elif':
+        b.bind('c0', 'fn_f')
+        main = ['cond', [[['n', 'c0'], other], [['n', 'c'], body]], other]
+    elif form == 'else':
+        main = ['cond', [[['n', 'c'], other]], body]
+    elif form == 'elif-then-else':
+        b.bind('c0', 'fn_f')
+        main = ['cond', [[['n', 'c0'], other], [['n', 'c'], other], [['n', 'c0'], other]], body + ref_to('c0')]
+    elif form == 'unless':
+        main = ['unless', ['n', 'c'], body]
+    else:
+        b.bind('c0', 'fn_str')
+        main = ['cond', [[['n', 'c0'], [['cond', [[['n', 'c'], body]], None]] + ref_to('c0') + ref_to('c')]], None]
+    blocks = [['lit', '['], main, ['lit', '|']] + ref_to('late') + ref_to('c') + [['lit', ']']]
+    return b, blocks, ('scope', form, kind, label, layout) + ((label2,) if label2 else ())
+
+
+def gen_scopes(r, tier):
+    for form in sorted(SCOPE_FORMS):
+        for label in SCOPE_LABELS:
+            kinds = SCOPE_FORMS[form]
+            layouts = ['after', 'between', 'nested-after']
+            if tier == 'quick':
+                # every (form, scope) pair; the value kinds and layouts rotate over them
+                kinds = [r.choice(kinds)]
+                layouts = [r.choice(layouts)]
+            for kind in kinds:
+                for layout in layouts:
+                    yield gen_scope(r, form, kind, label, layout)
+    # two scopes in a row
+    for _ in range(150 if tier == 'quick' else 6000):
+        form = r.choice(sorted(SCOPE_FORMS))
+        yield gen_scope(r, form, r.choice(SCOPE_FORMS[form]), r.choice(SCOPE_LABELS), r.choice(['after', 'between']),
+                        r.choice(SCOPE_LABELS))
+
+
+ELSE_SPELLINGS = [(syntax, rep) for syntax in SYNTAXES for rep in (True, False)]
+
+
+def gen_spellings(r, tier):
+    """if chains of 1..5 conditions with an else × the winning position (each branch, or none = the else body) × the else
+    tag bare / repeating the if tag's argument text × the three syntaxes × the first condition a name, name=NAME or an
+    expression; further conditions names and expressions; dtml-unless in its two spellings"""
+    n = 0
+    for k in range(1, 6):
+        for win in range(k + 1):
+            for first in ('name', 'expr'):
+                for syntax, rep in ELSE_SPELLINGS:
+                    b = Builder()
+                    srcs = []
+                    for i in range(k):
+                        true = i == win
+                        as_name = (first == 'name') if i == 0 else r.random() < 0.6
+                        if as_name:
+                            kd = r.choice(['fn_t', 'fn_str', 'val_t'] if true else ['fn_f', 'fn_none', 'undef', 'fn_empty'])
+                        else:
+                            kd = 'x_call_t' if true else 'x_call_f'
+                        srcs.append(make_src(b, i, kd))
+                    names = [x[1] for x in srcs if x[0] == 'n']
+                    conds = [[x, body_for(r, i, names)] for i, x in enumerate(srcs)]
+                    blocks = [['lit', '['], ['cond', conds, body_for(r, 9, names)], ['lit', '|']]
+                    if r.random() < 0.5:
+                        s = make_src(b, 7, r.choice(['fn_f', 'fn_t', 'undef', 'val_f']))
+                        blocks += [['unless', s, body_for(r, 7, [s[1]])]]
+                    blocks.append(['lit', ']'])
+                    n += 1
+                    b.style = {'seed': r.randrange(1 << 30), 'syntax': syntax, 'p_rep': 1.0 if rep else 0.0,
+                               'p_else_start': 0.5}
+                    yield b, blocks, ('spelling', k, win, first, syntax, rep)
+
+
 HIST_KINDS = ['fn_t', 'fn_t', 'fn_f', 'fn_none', 'fn_str', 'fn_empty', 'val_t', 'val_f', 'str_t', 'none', 'undef']
 SEQ_KINDS = {'tf': [1, 0], 'ft': [0, 1], 'alt': [1, 0, 1, 0, 1, 0, 1, 0], 'str': [{'s': 'a'}, {'s': ''}, {'s': 'b'}],
              'none': [None, 2, None, 3], 'up': [0, 0, 5]}
@@ -466,8 +904,11 @@ class History:
         r = self.r
         out = []
         for _ in range(r.choice([0, 1, 1, 1, 2])):
-            ref = [['lit', '('], ['var', ['n', r.choice(self.pool)], False, 'U', None], ['lit', ')']]
-            out += wrap(r, ref, r.choice([0, 0, 0, 1, 2]))
+            n = r.choice(self.pool)
+            ref = [['lit', '('], ['var', ['n', n], False, 'U', None], ['lit', ')']]
+            if r.random() < 0.2:
+                out += scope_beside(r)
+            out += wrap(r, ref, r.choice([0, 0, 0, 1, 2]), shadow=n)
         return out
 
     def raiser(self, prefer_ret):
@@ -607,10 +1048,15 @@ class SeqFn(proggen.Fn):
 
 
 def run_real(case, plan, b):
-    """the case on the real classes only, with the changing callables of `b` (the model's callables are constant)"""
+    """the case on the real classes, each template an instance of the class its spelling is written for (HTML / String),
+    with the changing callables of `b` (the model's callables are constant)"""
+    import sys
     from DocumentTemplate import HTML
+    from DocumentTemplate import String
+    if sys.getrecursionlimit() < 20000:
+        sys.setrecursionlimit(20000)
     world = proggen.World(plan[0], proggen.CLASSES[plan[1]][0])
-    templates = [HTML(t['source']) for t in case['templates']]
+    templates = [{'epfs': String, 'html': HTML}[t.get('klass', 'html')](t['source']) for t in case['templates']]
     for t, tj in zip(templates, case['templates']):
         t.globals = {k: proggen.to_py(world, v, templates) for k, v in tj['globals']}
     kw = {}
@@ -624,6 +1070,26 @@ def run_real(case, plan, b):
     except Exception as e:  # noqa
         res = {'raise': type(e).__name__, 'msg': proggen.exc_msg(e)}
     return {'result': res, 'events': world.events, 'calls': world.calls, 'snap_ids': [], 'max_level': 0}
+
+
+def run_with_string_class(res, cases, plans, bs):
+    """programs with a template of the String class (%(…) syntax): the model is asked as usual (it interprets the abstract
+    program), the real side is run here because the shared runner knows the HTML class only"""
+    if not cases:
+        return []
+    resp = [None] * len(cases)
+    if res.have_driver:
+        reqs = [proggen.model_req(c, f, fc) for c, (f, fc) in zip(cases, plans)]
+        resp = []
+        for i in range(0, len(reqs), 400):
+            resp += common.run_driver(reqs[i:i + 400], timeout=600)
+    out = []
+    for c, pl, rp, b in zip(cases, plans, resp, bs):
+        m = rp.get('ok') if rp else None
+        if rp is not None and m is None:
+            raise RuntimeError('driver: %r' % (rp,))
+        out.append((c, pl, run_real(c, pl, b), m))
+    return out
 
 
 def predict(b, blocks, faults=(), fault_cls='ValueError'):
@@ -679,9 +1145,14 @@ def check(res, items, have_driver, r=None, histories=()):
         cases.append(built[id(it)])
     res.have_driver = have_driver
     # callables whose value changes are not part of the model: those programs run on the real classes only
-    in_model = [i for i, it in enumerate(all_items) if not it[0].seqs]
+    string_class = [any(t['klass'] == 'epfs' for t in c['templates']) for c in cases]
+    in_model = [i for i, it in enumerate(all_items) if not it[0].seqs and not string_class[i]]
     runs = [None] * len(all_items)
     for i, x in zip(in_model, interp.run_cases(res, [cases[i] for i in in_model], [plans[i] for i in in_model])):
+        runs[i] = x
+    in_model = [i for i, it in enumerate(all_items) if not it[0].seqs and string_class[i]]
+    for i, x in zip(in_model, run_with_string_class(res, [cases[i] for i in in_model], [plans[i] for i in in_model],
+                                                    [all_items[i][0] for i in in_model])):
         runs[i] = x
     for i, it in enumerate(all_items):
         if runs[i] is None:
@@ -702,8 +1173,22 @@ def check(res, items, have_driver, r=None, histories=()):
             for cls in (exp.get('raise'),):
                 if cls:
                     res.count('history:result=raise')
+        elif key[0] == 'scope':
+            res.count('form=scope-in-chosen-body')
+            res.count('scope-in:' + key[1])
+            res.count('scope:' + key[3])
+        elif key[0] == 'spelling':
+            res.count('form=else-tag-spellings')
+            res.count('else-tag:%s,%s,chain-of-%d' % (key[4], 'repeats-if-tag' if key[5] else 'bare', key[1]))
         else:
             res.count('form=' + '+'.join(k[0] for k in ([key] if isinstance(key[0], str) else key)))
+        for w in c['spelling']:
+            res.count('spelling:' + w)
+        src_all = ''.join(t['source'] for t in c['templates'])
+        if ' only' in src_all:
+            res.count('contains:with-only')
+        elif 'with ' in src_all or 'with\n' in src_all:
+            res.count('contains:with')
         if plan[0]:
             res.count('fault=' + plan[1])
             if len(plan[0]) > 1:
@@ -712,6 +1197,8 @@ def check(res, items, have_driver, r=None, histories=()):
             res.oracle_fail.append({'case': {'source': c['templates'][0]['source'],
                                              'sub_templates': {'sub%d' % i: t['source'] for i, t in
                                                                enumerate(c['templates']) if i},
+                                             'classes': [{'html': 'HTML', 'epfs': 'String'}[t['klass']]
+                                                         for t in c['templates']],
                                              'namespace': c['kw'],
                                              'changing_results': {str(k): v for k, v in b.seqs.items()},
                                              'faults': list(plan[0]), 'fault_cls': plan[1]},
@@ -747,16 +1234,30 @@ def run(res, tier, have_driver):
                 'cache must keep serving); every history also with the k-th callable invocation raising (up to 6 points, '
                 'KeyError / NameError / ValueError / E2) and with two faults in one rendering; a third of the histories use '
                 'callables whose result changes from one evaluation to the next (real code only, no model run); expected output '
-                '+ ordered call log from the documented rule with Python try semantics')
+                '+ ordered call log from the documented rule with Python try semantics.  SCOPES: body wrappers also dtml-with '
+                '(object / mapping, plain / only) and a let rebinding the condition name; scope-opening blocks beside the '
+                'references; systematic: ' + str(len(SCOPE_LABELS)) + ' kinds of scope-opening block (with × only × same-name attribute plain / callable × '
+                'left by raise / undefined variable / undefined with name and caught × nesting with let / in / with only; let, '
+                'in, if / elif / unless / call on the same name, try, try-finally, sub-templates) in the chosen body of 6 forms '
+                'of conditional (if, elif, else, else after repeated elif, unless, if inside if), before / between references '
+                'to the condition name, a keyword argument referred to after the conditional; pairs of scopes in a row.  '
+                'SPELLINGS: half of the programs in <dtml-x> / <!--#x--> / %(x)[ (String class; sub-templates choose their '
+                'own syntax: String and HTML in one rendering) with the else tag repeating the if tag\'s argument text, end '
+                'tags with arguments, name=NAME, "expr" / expr="expr", unless as stand-alone else NAME block; systematic: '
+                'chains of 1..5 conditions × winning position × else bare / repeating × 3 syntaxes × first condition name / '
+                'expression')
     items = []
     kmax = 3 if tier == 'quick' else 4
     for k in range(1, kmax + 1):
         items += list(gen_exhaustive(r, k, CORE_KINDS))
     for _ in range(1500 if tier == 'quick' else 20000):
         items.append(gen_random(r))
+    items += list(gen_scopes(common.rng('C09-scopes'), tier))
+    items += list(gen_spellings(common.rng('C09-else-spellings'), tier))
     rh = common.rng('C09-history')
     nh = 500 if tier == 'quick' else 8000
     histories = [gen_history(rh) for _ in range(nh)] + [gen_history(rh, True) for _ in range(nh // 2)]
+    restyle(common.rng('C09-spelling'), items + histories)
     runs = check(res, items, have_driver, r, histories)
     res.oracle_fail.sort(key=lambda f: len(f['case']['source']))      # the replay shows the shortest failing input
     res.exhaustive = False
@@ -768,7 +1269,18 @@ def run(res, tier, have_driver):
                         'truth of a value = Python bool(); values are ints, strings, None, callables',
                         'histories: exceptions are ValueError / KeyError / NameError / LookupError / ZeroDivisionError / a user '
                         'class; handler bodies do not use error_type / error_value; callables with changing results are compared '
-                        'with the oracle only (the model\'s callables are constant)']
+                        'with the oracle only (the model\'s callables are constant)',
+                        'the model interprets the abstract program; that the spellings (syntaxes, else NAME, stand-alone else) '
+                        'compile to it is observed on the real classes through the oracle, and stated by C06 / C07 for the parser model',
+                        'a stand-alone `else NAME` block is not generated where an enclosing if / in block is on the same name or '
+                        'expression (there the documentation leaves open which tag it continues)']
+
+
+def restyle(rs, items, share=0.5):
+    """a share of the programs is written in another spelling (see Speller); the rest stays in proggen's plain dtml"""
+    for it in items:
+        if it[0].style is None and rs.random() < share:
+            it[0].style = {'seed': rs.randrange(1 << 30)}
 
 
 def search_more(res, tier):
@@ -777,7 +1289,11 @@ def search_more(res, tier):
     items = [gen_random(r) for _ in range(6000)]
     for k in (4,):
         items += list(gen_exhaustive(r, k, CORE_KINDS))
-    check(res2, items, False, r, [gen_history(r, i % 3 == 2) for i in range(3000)])
+    items += list(gen_scopes(r, 'thorough' if tier == 'thorough' else 'quick'))
+    items += list(gen_spellings(r, tier))
+    hist = [gen_history(r, i % 3 == 2) for i in range(3000)]
+    restyle(r, items + hist)
+    check(res2, items, False, r, hist)
     return res2.oracle_fail
 
 
